@@ -141,6 +141,47 @@ struct LaneChecker
     }
 };
 
+// the same evaluation without reporting (used from several threads at once); returns the first bad lane or -1
+template <class V>
+static int quiet_eval(const Kernel<V> &k, const uint64_t *a, const uint64_t *b)
+{
+    const int W = V::W;
+    alignas(64) uint64_t xa[8], xb[8], o1[8], o2[8];
+    for (int i = 0; i < W; i++) { xa[i] = (k.ra == SHIFTED_ANY || k.ra == SHIFTED_CANON) ? a[i] ^ MSBV : a[i]; xb[i] = b[i]; }
+    typename V::reg ra = V::load(xa), rb = V::load(xb), r1 = V::load(xa), r2 = V::load(xb);
+    k.fn(r1, r2, ra, rb);
+    V::store(o1, r1);
+    V::store(o2, r2);
+    for (int i = 0; i < W; i++)
+    {
+        uint64_t exp = 0, got = o1[i];
+        switch (k.math)
+        {
+        case M_ADD: exp = orc::add(a[i], b[i]); break;
+        case M_SUB: exp = orc::sub(a[i], b[i]); break;
+        case M_MUL: exp = orc::mul(a[i], b[i]); break;
+        case M_SQR: exp = orc::mul(a[i], a[i]); break;
+        case M_CANON: exp = orc::canon(a[i]); break;
+        default: exp = orc::red128(((u128)a[i] << 64) | b[i]); break;
+        }
+        bool ok = true;
+        switch (k.out)
+        {
+        case CONGRUENT: ok = orc::canon(got) == exp; break;
+        case EXACT_CANON: ok = got == exp; break;
+        case SHIFTED_CONGRUENT: ok = orc::canon(got ^ MSBV) == exp; break;
+        case SHIFTED_EXACT_CANON: ok = (got ^ MSBV) == exp; break;
+        default:
+        {
+            u128 pr = (k.math == M_SQR) ? (u128)a[i] * a[i] : (u128)a[i] * b[i];
+            ok = o1[i] == (uint64_t)(pr >> 64) && o2[i] == (uint64_t)pr;
+        }
+        }
+        if (!ok) return i;
+    }
+    return -1;
+}
+
 // ------------------------------------------------------------------ kernel tables
 #define KFN(V, body) [](typename V::reg &o1, typename V::reg &o2, const typename V::reg &x, const typename V::reg &y) { (void)o2; (void)y; body; }
 
@@ -365,8 +406,39 @@ static void run_lanes(const vf::Args &args, Report &rep, const std::vector<Kerne
         flush("mixed_random");
         rep.cls("family:mixed_random");
     }
+    // (6) concurrent callers: eight threads, each with its own operands, all kernels (a lane kernel must not share scratch between callers)
+    {
+        const int T = 8;
+        uint64_t n = args.getu("concurrent", args.thorough() ? 4000000ULL : 400000ULL) / args.nshards / T;
+        struct Bad { int kernel = -1, lane = 0; uint64_t a[8], b[8]; } bad[T];
+        uint64_t seeds[T];
+        for (int t = 0; t < T; t++) seeds[t] = vf::mix64(args.seed, 0xCC00 + args.shard * 977 + t);
+#pragma omp parallel num_threads(T)
+        {
+            int me = omp_get_thread_num() % T;
+            Rng q(seeds[me]), cq(seeds[me] ^ 0x55);
+            for (uint64_t t = 0; t < n; t++)
+            {
+                uint64_t a[8], b[8];
+                for (int i = 0; i < W; i++) { a[i] = g.pick(q); b[i] = g.pick(q); }
+                for (size_t ki = 0; ki < K.size(); ki++)
+                {
+                    uint64_t ca[8], cb[8];
+                    for (int i = 0; i < W; i++) { ca[i] = constrain(a[i], K[ki].ra, cq); cb[i] = constrain(b[i], K[ki].rb, cq); }
+                    int bl = quiet_eval<V>(K[ki], ca, cb);
+                    if (bl >= 0 && bad[me].kernel < 0) { bad[me].kernel = (int)ki; bad[me].lane = bl; memcpy(bad[me].a, ca, sizeof ca); memcpy(bad[me].b, cb, sizeof cb); }
+                }
+            }
+        }
+        for (int t = 0; t < T; t++)
+            if (bad[t].kernel >= 0)
+                rep.violation(std::string(prop) + ":" + K[bad[t].kernel].name + ":concurrent-callers:wrong-lane-value",
+                              J().str("kernel", K[bad[t].kernel].name).i("lane", bad[t].lane).h("a", bad[t].a[bad[t].lane]).h("b", bad[t].b[bad[t].lane]).str("what", "8 threads calling the kernels at the same time on their own operands").done());
+        rep.evaluations += n * T * K.size() * W;
+        rep.cls("family:concurrent_callers", n * T);
+    }
     rep.cls(std::string("kernels:") + V::tag(), K.size());
-    // (6) load/store/set variants: aligned and unaligned round trip (AVX2 only has set_avx)
+    // (7) load/store/set variants: aligned and unaligned round trip (AVX2 only has set_avx)
 }
 
 // ================================================================================== matrix kernels (C13 / C14)
@@ -574,6 +646,39 @@ static void run_mat4(const vf::Args &args, Report &rep)
         rep.cls(std::string("matfam:") + MATFAM[fam] + (m8 ? ":8bit" : ":full"));
         rep.nontrivial(vf::mix64(s[0] ^ s[5], coef[0] ^ coef[13] ^ t));
     }
+    // concurrent callers: 8 threads, own states and matrices, the full-matrix and dot kernels
+    {
+        const int T = 8;
+        uint64_t nc = args.getu("concurrent", args.thorough() ? 400000ULL : 40000ULL) / args.nshards / T + 1;
+        int bad[T];
+        uint64_t seeds[T];
+        for (int t = 0; t < T; t++) { bad[t] = 0; seeds[t] = vf::mix64(args.seed, 0x13CC + args.shard * 31 + t); }
+#pragma omp parallel num_threads(T)
+        {
+            int me = omp_get_thread_num() % T;
+            Rng q(seeds[me]);
+            MatGen lg;
+            for (uint64_t t = 0; t < nc; t++)
+            {
+                uint64_t s[12], coef[144], sc[12], e12[12], g12[12];
+                bool m8 = t & 1;
+                lg.fill(q, (int)(t % 6), s, 12, coef, 144, m8, nullptr);
+                for (int i = 0; i < 12; i++) sc[i] = orc::canon(s[i]);
+                o_mmult_rows(e12, 12, sc, coef);
+                __m256i b0 = V4::load(s), b1 = V4::load(s + 4), b2 = V4::load(s + 8);
+                El d = Goldilocks::dot_avx(b0, b1, b2, (El *)coef);
+                if (orc::canon(d.fe) != o_dot(sc, coef)) bad[me] = 1;
+                if (m8) Goldilocks::mmult_avx_8(b0, b1, b2, (El *)coef); else Goldilocks::mmult_avx(b0, b1, b2, (El *)coef);
+                V4::store(g12, b0); V4::store(g12 + 4, b1); V4::store(g12 + 8, b2);
+                for (int i = 0; i < 12; i++) if (orc::canon(g12[i]) != e12[i]) bad[me] = m8 ? 3 : 2;
+            }
+        }
+        static const char *KNM[] = {"", "dot_avx", "mmult_avx", "mmult_avx_8"};
+        for (int t = 0; t < T; t++)
+            if (bad[t]) rep.violation(std::string(prop) + ":" + KNM[bad[t]] + ":concurrent-callers:wrong-value", J().str("kernel", KNM[bad[t]]).str("what", "8 threads calling the kernels at the same time on their own operands").done());
+        rep.evaluations += nc * T;
+        rep.cls("family:concurrent_callers", nc * T);
+    }
     rep.cls("kernels:avx2_matrix", 13);
 }
 
@@ -688,6 +793,40 @@ static void run_mat8(const vf::Args &args, Report &rep)
         if (m8) CHK24("mmult_avx512_8", Goldilocks::mmult_avx512_8(b0, b1, b2, (El *)coef));
         rep.cls(std::string("matfam:") + MATFAM[fam] + (m8 ? ":8bit" : ":full"));
         rep.nontrivial(vf::mix64(s[0] ^ s[17], coef[0] ^ coef[13] ^ t));
+    }
+    {
+        const int T = 8;
+        uint64_t nc = args.getu("concurrent", args.thorough() ? 400000ULL : 40000ULL) / args.nshards / T + 1;
+        int bad[T];
+        uint64_t seeds[T];
+        for (int t = 0; t < T; t++) { bad[t] = 0; seeds[t] = vf::mix64(args.seed, 0x14CC + args.shard * 31 + t); }
+#pragma omp parallel num_threads(T)
+        {
+            int me = omp_get_thread_num() % T;
+            Rng q(seeds[me]);
+            MatGen lg;
+            for (uint64_t t = 0; t < nc; t++)
+            {
+                uint64_t s[24], coef[144], sc[2][12], e[2][12], il[24], g24[24];
+                bool m8 = t & 1;
+                lg.fill(q, (int)(t % 6), s, 24, coef, 144, m8, nullptr);
+                for (int st = 0; st < 2; st++) { for (int i = 0; i < 12; i++) sc[st][i] = orc::canon(s[12 * st + i]); o_mmult_rows(e[st], 12, sc[st], coef); }
+                for (int j = 0; j < 3; j++) for (int i = 0; i < 4; i++) { il[8 * j + i] = s[4 * j + i]; il[8 * j + 4 + i] = s[12 + 4 * j + i]; }
+                __m512i b0 = V8::load(il), b1 = V8::load(il + 8), b2 = V8::load(il + 16);
+                El d[2];
+                Goldilocks::dot_avx512(d, b0, b1, b2, (El *)coef);
+                for (int st = 0; st < 2; st++) if (orc::canon(d[st].fe) != o_dot(sc[st], coef)) bad[me] = 1;
+                if (m8) Goldilocks::mmult_avx512_8(b0, b1, b2, (El *)coef); else Goldilocks::mmult_avx512(b0, b1, b2, (El *)coef);
+                V8::store(g24, b0); V8::store(g24 + 8, b1); V8::store(g24 + 16, b2);
+                for (int st = 0; st < 2; st++) for (int j = 0; j < 3; j++) for (int i = 0; i < 4; i++)
+                    if (orc::canon(g24[8 * j + 4 * st + i]) != e[st][4 * j + i]) bad[me] = m8 ? 3 : 2;
+            }
+        }
+        static const char *KNM[] = {"", "dot_avx512", "mmult_avx512", "mmult_avx512_8"};
+        for (int t = 0; t < T; t++)
+            if (bad[t]) rep.violation(std::string(prop) + ":" + KNM[bad[t]] + ":concurrent-callers:wrong-value", J().str("kernel", KNM[bad[t]]).str("what", "8 threads calling the kernels at the same time on their own operands").done());
+        rep.evaluations += nc * T;
+        rep.cls("family:concurrent_callers", nc * T);
     }
     rep.cls("kernels:avx512_matrix", 7);
 }
